@@ -25,12 +25,45 @@ enum Kind {
     V2UnknownKey,
     DuplicatedAuthorization,
     MalformedAuthorization,
+    /// browser-style POST form upload (always PutObject), correctly signed / signed with another secret
+    V4PostForm,
+    V4PostFormBadSignature,
+    /// the correct signature cut short (a proper prefix, possibly empty)
+    V4HeaderShortSignature,
+    V2HeaderShortSignature,
+    V2PresignedShortSignature,
+    V4PostFormShortSignature,
 }
 
 const KINDS: &[Kind] = &[
     Kind::Anonymous, Kind::V4Header, Kind::V4Presigned, Kind::V2Header, Kind::V2Presigned, Kind::V4BadSignature, Kind::V2BadSignature, Kind::V4UnknownKey, Kind::V2UnknownKey, Kind::DuplicatedAuthorization,
-    Kind::MalformedAuthorization,
+    Kind::MalformedAuthorization, Kind::V4PostForm, Kind::V4PostFormBadSignature, Kind::V4HeaderShortSignature, Kind::V2HeaderShortSignature, Kind::V2PresignedShortSignature, Kind::V4PostFormShortSignature,
 ];
+
+fn is_post_form(k: Kind) -> bool {
+    matches!(k, Kind::V4PostForm | Kind::V4PostFormBadSignature | Kind::V4PostFormShortSignature)
+}
+
+fn is_short_signature(k: Kind) -> bool {
+    matches!(k, Kind::V4HeaderShortSignature | Kind::V2HeaderShortSignature | Kind::V2PresignedShortSignature | Kind::V4PostFormShortSignature)
+}
+
+/// a signed POST form for PutObject; returns the request and the access key it names
+fn post_form(c: &mut Case<'_>, kind: Kind) -> (Req, String) {
+    let b = crate::props::c10::gen_form(c, 300);
+    let mut form = b.form.clone();
+    let signer = if kind == Kind::V4PostFormBadSignature { Signer { secret: format!("{}x", b.signer.secret), ..b.signer.clone() } } else { b.signer.clone() };
+    crate::refimpl::postform::sign_form(&mut form, &b.policy.to_base64(), &signer);
+    if kind == Kind::V4PostFormShortSignature {
+        let cut = c.t.below(64);
+        for (n, v) in form.fields.iter_mut() {
+            if n.eq_ignore_ascii_case("x-amz-signature") {
+                v.truncate(cut);
+            }
+        }
+    }
+    (crate::props::c10::form_request(&b.bucket, &form), b.signer.access_key.clone())
+}
 
 fn now_unix() -> i64 {
     std::time::SystemTime::now().duration_since(std::time::UNIX_EPOCH).unwrap().as_secs() as i64
@@ -125,6 +158,37 @@ fn sign(c: &mut Case<'_>, kind: Kind, req: &mut Req, service: &str) -> Option<St
             req.headers.push(("authorization".into(), a));
             Some(ak.into())
         }
+        Kind::V4PostForm | Kind::V4PostFormBadSignature | Kind::V4PostFormShortSignature => unreachable!("built by post_form"),
+        Kind::V4HeaderShortSignature => {
+            signer.sign_header(req, UNSIGNED, &amz_signed);
+            let a = req.header("authorization")?.to_owned();
+            let i = a.find("Signature=")? + 10;
+            let cut = c.t.below(64);
+            req.set_header("authorization", &a[..i + cut]);
+            Some(ak.into())
+        }
+        Kind::V2HeaderShortSignature => {
+            req.headers.push(("date".into(), rt::http_date(now_unix())));
+            sigv2::sign_header(req, ak, sk, None)?;
+            let a = req.header("authorization")?.to_owned();
+            let i = a.rfind(':')? + 1;
+            let cut = c.t.below(a.len() - i);
+            req.set_header("authorization", &a[..i + cut]);
+            Some(ak.into())
+        }
+        Kind::V2PresignedShortSignature => {
+            sigv2::presign(req, ak, sk, now_unix() + 600, None)?;
+            let q = req.query.clone()?;
+            let parts: Vec<String> = q
+                .split('&')
+                .map(|p| match p.strip_prefix("Signature=") {
+                    Some(v) => format!("Signature={}", &v[..c.t.below(v.len().min(20))]),
+                    None => p.to_owned(),
+                })
+                .collect();
+            req.query = Some(parts.join("&"));
+            Some(ak.into())
+        }
         Kind::MalformedAuthorization => {
             signer.sign_header(req, UNSIGNED, &amz_signed);
             let a = req.header("authorization")?.to_owned();
@@ -145,8 +209,9 @@ fn case(c: &mut Case<'_>) -> CaseResult {
     let auth_cfg = c.t.below(4); // 0: none, 1,2: keys, 3: provider denies
     let keys = (auth_cfg != 0).then(default_keys);
     let provider_denies = (auth_cfg == 3).then(|| "AccountProblem".to_owned());
-    let custom = c.t.chance(48);
-    let op: &str = if custom { "<custom-route>" } else { OPS[c.t.below(OPS.len())] };
+    let kind = *c.t.pick(KINDS);
+    let custom = !is_post_form(kind) && c.t.chance(48);
+    let op: &str = if is_post_form(kind) { "PutObject" } else if custom { "<custom-route>" } else { OPS[c.t.below(OPS.len())] };
     if !custom && (KNOWN_UNREACHABLE.contains(&op) || model().ops.get(op).is_none()) {
         return discard("operation not usable");
     }
@@ -167,8 +232,12 @@ fn case(c: &mut Case<'_>) -> CaseResult {
     let cfg = EnvCfg { host: if c.t.bool() { HostCfg::None } else { HostCfg::Single }, keys: keys.clone(), provider_denies: provider_denies.clone(), access: access.clone(), route: route.clone() };
     let env = build_env(&cfg);
     // request
-    let kind = *c.t.pick(KINDS);
-    let mut req = if custom {
+    let mut form_key: Option<String> = None;
+    let mut req = if is_post_form(kind) {
+        let (r, ak) = post_form(c, kind);
+        form_key = Some(ak);
+        r
+    } else if custom {
         Req {
             method: "POST".into(),
             path: "/".into(),
@@ -187,7 +256,8 @@ fn case(c: &mut Case<'_>) -> CaseResult {
         return discard("owned by the C11 torrent finding");
     }
     let service = if custom && c.t.bool() { "sts" } else { "s3" };
-    let Some(claimed) = sign(c, kind, &mut req, service).map(Some).or((kind == Kind::Anonymous).then_some(None)) else { return discard("not signable") };
+    let signed = if is_post_form(kind) { form_key.clone() } else { sign(c, kind, &mut req, service) };
+    let Some(claimed) = signed.map(Some).or((kind == Kind::Anonymous).then_some(None)) else { return discard("not signable") };
     let presents_signature = kind != Kind::Anonymous;
     let route_matches = matches!(route, RouteMode::MatchStsForm { .. }) && custom;
     let route_overrides = matches!(route, RouteMode::MatchStsForm { override_check: true });
@@ -208,7 +278,7 @@ fn case(c: &mut Case<'_>) -> CaseResult {
     let mut expect: Vec<String> = Vec::new();
     let mut expect_ok = true;
     let mut expect_deny_msg: Option<&str> = None;
-    let valid_sig = matches!(kind, Kind::V4Header | Kind::V4Presigned | Kind::V2Header | Kind::V2Presigned);
+    let valid_sig = matches!(kind, Kind::V4Header | Kind::V4Presigned | Kind::V2Header | Kind::V2Presigned | Kind::V4PostForm);
     // a duplicated Authorization header is not a usable credential: the request is seen as carrying none (don't-care
     // whether that counts as "presenting a signature"); it must never be treated as authenticated
     let effective_anonymous = matches!(kind, Kind::Anonymous | Kind::DuplicatedAuthorization);
@@ -296,6 +366,14 @@ fn case(c: &mut Case<'_>) -> CaseResult {
         c.label("dc:no-provider-anonymous");
         return Ok(());
     }
+    if is_short_signature(kind) {
+        // whether the provider is consulted before the shortened signature is refused is don't-care;
+        // the request must be refused and nothing may run on its behalf
+        if out.log.iter().any(|l| l.starts_with("backend") || l.starts_with("access") || l.starts_with("route")) || out.status < 400 {
+            return Err(c.fail(format!("ran-without-approval:{sig_base}"), format!("{kind:?} {op} under {cfg:?}: a proper prefix of the correct signature was not refused\nevents {:?}\nresponse {} {:?}\n{}", out.log, out.status, out.code, req.render())));
+        }
+        return Ok(());
+    }
     if kind == Kind::DuplicatedAuthorization {
         // only: never authenticated
         if out.log.iter().any(|l| (l.starts_with("backend") || l.starts_with("access") || l.starts_with("route")) && !l.ends_with("<anonymous>")) {
@@ -349,11 +427,11 @@ fn case(c: &mut Case<'_>) -> CaseResult {
 }
 
 pub fn run(r: &mut Runner) {
-    r.rule = "(request kind in {anonymous, valid V4 header/presigned, valid V2 header/presigned, bad signature V4/V2, unknown key V4/V2, duplicated / malformed Authorization}) x (operation: SDK-captured request for any of the 96 operations, or a custom-route request) x (auth provider none/keys/denying, access hook none/allow/deny/deny-by-op/deny-in-typed-hook/require-credentials, route none/matching/matching-overriding/non-matching, host parser): the ordered event log of provider, hooks, route and backend must equal the model's; always non-trivial; distinct by the whole tuple.".into();
+    r.rule = "(request kind in {anonymous, valid V4 header/presigned, valid V2 header/presigned, valid / badly signed V4 POST form, bad signature V4/V2, correct signature cut short (V4 header, V2 header, V2 presigned, POST form), unknown key V4/V2, duplicated / malformed Authorization}) x (operation: SDK-captured request for any of the 96 operations, or a custom-route request) x (auth provider none/keys/denying, access hook none/allow/deny/deny-by-op/deny-in-typed-hook/require-credentials, route none/matching/matching-overriding/non-matching, host parser): the ordered event log of provider, hooks, route and backend must equal the model's; always non-trivial; distinct by the whole tuple.".into();
     r.assumptions = vec![
         "validity of each request kind is known by construction (reference signers)".into(),
         "without a provider a duplicated Authorization header is seen as no header (don't-care); it must never be authenticated".into(),
-        "V4 POST-form requests are covered by C10".into(),
+        "policy compliance of POST forms is C10's subject: the forms used here satisfy their policy".into(),
     ];
     for t in [sigv4::self_test(), sigv2::self_test()] {
         if let Err(e) = t {
